@@ -41,7 +41,11 @@ Record dp_cfg := mkCfg {
   c_res : list dp_res;                        (* coap_add_resource(), distinct paths *)
   c_unk : option (Z * Z);                     (* unknown resource: (mask, flags) *)
   c_prx : option (Z * Z * list bytes);        (* proxy resource: (mask, flags, host names) *)
-  c_wk : bytes -> bytes                       (* query -> /.well-known/core listing (C20) *)
+  c_wk : bytes -> bytes;                      (* query -> /.well-known/core listing (C20) *)
+  (* which bytes coap_get_uri_path() / coap_get_query() copy unescaped (C16); the tie takes
+     both tables from the library on every run, the theorems hold for any tables *)
+  c_unesc_path : Z -> bool;
+  c_unesc_query : Z -> bool
 }.
 
 (* ---- events ---- *)
@@ -250,7 +254,9 @@ Definition dp_error_opts (f : dp_filter) (opts : list opt) : list opt :=
 Definition dp_error (req : msg) (code : Z) (f : dp_filter) : msg :=
   mkMsg (dp_resp_type req) code (m_mid req) (m_token req) (dp_error_opts f (m_opts req)) [].
 
-(* ---- coap_get_uri_path / coap_get_query ---- *)
+(* ---- coap_get_uri_path / coap_get_query ----
+   dp_unescaped_path / dp_unescaped_query: the tables of the source as read (reference values
+   for c_unesc_path / c_unesc_query) ---- *)
 Definition dp_unescaped_path (c : Z) : bool :=
   ((65 <=? c) && (c <=? 90)) || ((97 <=? c) && (c <=? 122)) || ((48 <=? c) && (c <=? 57)) ||
   (c =? 45) || (c =? 46) || (c =? 95) || (c =? 126) || (c =? 33) || (c =? 36) || (c =? 39) ||
@@ -273,10 +279,10 @@ Fixpoint dp_join (sep : Z) (l : list bytes) : bytes :=
 Definition dp_values (n : Z) (opts : list opt) : list bytes :=
   map snd (filter (fun o => fst o =? n) opts).
 
-Definition dp_uri_path (opts : list opt) : bytes :=
-  dp_join 47 (map (dp_escape dp_unescaped_path) (dp_values DP_URI_PATH opts)).
-Definition dp_query (opts : list opt) : bytes :=
-  dp_join 38 (map (dp_escape dp_unescaped_query) (dp_values DP_URI_QUERY opts)).
+Definition dp_uri_path (cfg : dp_cfg) (opts : list opt) : bytes :=
+  dp_join 47 (map (dp_escape (c_unesc_path cfg)) (dp_values DP_URI_PATH opts)).
+Definition dp_query (cfg : dp_cfg) (opts : list opt) : bytes :=
+  dp_join 38 (map (dp_escape (c_unesc_query cfg)) (dp_values DP_URI_QUERY opts)).
 
 (* ".well-known/core" *)
 Definition dp_wellknown : bytes :=
@@ -384,12 +390,15 @@ Definition dp_fail (cfg : dp_cfg) (mc : bool) (req : msg) (rflags : option Z) (c
 Definition dp_invoke (cfg : dp_cfg) (h : dp_hreq -> dp_hresp) (mc : bool) (req : msg)
            (t : dp_target) : list dp_ev :=
   let rf := Some (dp_target_flags t) in
-  let query := dp_query (m_opts req) in
+  let query := dp_query cfg (m_opts req) in
   let rty := dp_resp_type req in
   match t with
   | TWellKnown =>
-      dp_finish cfg mc req rf false false
-        (mkMsg rty 69 (m_mid req) (m_token req) [(DP_CONTENT_FORMAT, [40])] (c_wk cfg query))
+      (* built-in handler; with a Block2 option in the request it serves the listing block-wise
+         (coap_add_data_blocked_response): C09's subject, outside this model *)
+      if dp_has DP_BLOCK2 (m_opts req) then [EvSkip]
+      else dp_finish cfg mc req rf false false
+             (mkMsg rty 69 (m_mid req) (m_token req) [(DP_CONTENT_FORMAT, [40])] (c_wk cfg query))
   | _ =>
       let early := match t with TProxy _ _ => m_type req =? NR_CON | _ => false end in
       let i := mkHreq (dp_target_rid t) (m_code req) req query in
@@ -417,7 +426,7 @@ Definition dp_run (cfg : dp_cfg) (h : dp_hreq -> dp_hresp) (mc : bool) (req : ms
 (* handle_request(): resource look-up and what follows *)
 Definition dp_hr_lookup (cfg : dp_cfg) (h : dp_hreq -> dp_hresp) (mc : bool) (req : msg)
            (is_proxy : bool) : list dp_ev :=
-  match dp_lookup cfg is_proxy (m_code req) (dp_uri_path (m_opts req)) with
+  match dp_lookup cfg is_proxy (m_code req) (dp_uri_path cfg (m_opts req)) with
   | TNone => dp_fail cfg mc req None (if m_code req =? 4 then 66 else 132)
   | t => dp_run cfg h mc req t
   end.
